@@ -16,13 +16,14 @@ def run_h(history):
 
 def mk_cfg(ctx):
     return pm.Cfg(seed=ctx.seed, slots=("A",), max_objs=3 if ctx.thorough else 2, actions=(), clock=True,
-                  queries=(), numeric=True, use_iter=True, use_exit=ctx.thorough, oneshot=True)
+                  queries=(), numeric=True, use_iter=True, use_exit=ctx.thorough, oneshot=True,
+                  iterhold=True, comm={"A": b"a) b c"})
 
 
 def run(ctx):
     global _CFG
     _CFG = mk_cfg(ctx)
-    depth = 9 if ctx.thorough else 7
+    depth = 9 if ctx.thorough else 8
     res = bfs(run_h, depth, ctx)
     cov = {
         "states": res["states"], "transitions": res["transitions"],
